@@ -114,6 +114,12 @@ def init_worker(*props):
 
 
 def run_case(case):
+    if case.get("engine") == "F":
+        from vf import file_runs, worlds
+
+        worlds.uninstall()
+        X._MGR.clear()
+        return file_runs.run_file_case(case)
     if case.get("engine") == "B":
         from vf import explore_physics as EP, worlds
 
@@ -144,6 +150,12 @@ def main_for(prop, run: core.Run, rule_extra: str, require=(), only=None):
         validated = sum(r["stats"].get("traces_validated", 0) for r in bres)
     else:
         validated = 0
+    if prop == "C02" and (not only or "F" in only):
+        # designs run from an input file through the command-line worker, names in the file in other letter cases
+        fcases = [{"engine": "F", "method": mth, "cap": 10, "cont": True, "load": "too_large", "casing": how}
+                  for mth, how in ((("nearsquare", "lower"), ("rectangle", "capital")) if run.tier == "quick" else
+                                   [(mth, how) for mth in ("nearsquare", "rectangle", "birectangle", "bizoned") for how in ("upper", "lower", "capital", "mixed")])]
+        run.drive(fcases, family="F", init_args=(prop, "B"), chunksize=1)
     rule = (
         "one evaluation = one complete GHEManager.find_design() of the real search code over a fake-physics world "
         "(families A1 monotone thresholds (A1Z: a temperature limit of exactly 0), A7 reconfiguration histories on one manager, A8 narrow / empty spacing windows on a lot lattice, A1R excess rising with height, A1E a candidate missing / meeting the limit by 0.05 mK, A2 sign patterns, A3 sign x rank, A4 nested lists, A5 real candidate lists and A6 the real RowWise "
